@@ -8,23 +8,40 @@ package layer2
 
 import (
 	"net"
+	"reflect"
 	"sort"
+	"unsafe"
 
 	"github.com/go-kit/log"
 )
 
+// The fields New() initialises are initialised by KIND / TYPE through reflect, not by name, so that
+// a change of the announcer's internal representation (e.g. the responder maps merged into one map
+// of per-interface structs) does not break the build of the harness: every nil map gets an empty
+// map, the logger and the interface list are found by their type, the queue towards the spam loop
+// is the channel of IPAdvertisement.
 func VerifSpkNewAnnounce(ifs []string) *Announce {
-	a := &Announce{
-		logger:         log.NewNopLogger(),
-		nodeInterfaces: append([]string{}, ifs...),
-		arps:           map[int]*arpResponder{},
-		ndps:           map[int]*ndpResponder{},
-		ips:            map[string][]IPAdvertisement{},
-		ipRefcnt:       map[string]int{},
-		spamCh:         make(chan IPAdvertisement, 1024),
+	a := &Announce{}
+	v := reflect.ValueOf(a).Elem()
+	var logger log.Logger = log.NewNopLogger()
+	var spam chan IPAdvertisement
+	for i := 0; i < v.NumField(); i++ {
+		f := v.Field(i)
+		w := reflect.NewAt(f.Type(), unsafe.Pointer(f.UnsafeAddr())).Elem()
+		switch {
+		case f.Kind() == reflect.Map:
+			w.Set(reflect.MakeMap(f.Type()))
+		case f.Type() == reflect.TypeOf(&logger).Elem():
+			w.Set(reflect.ValueOf(&logger).Elem())
+		case f.Type() == reflect.TypeOf([]string(nil)):
+			w.Set(reflect.ValueOf(append([]string{}, ifs...)))
+		case f.Type() == reflect.TypeOf(spam):
+			spam = make(chan IPAdvertisement, 1024)
+			w.Set(reflect.ValueOf(spam))
+		}
 	}
 	go func() {
-		for range a.spamCh {
+		for range spam {
 		}
 	}()
 	return a
